@@ -145,7 +145,7 @@ def main(a):
                 print("UNCONFIRMED %s(%d,%d) path %s native=%s" % (r['claim'], r['n'], r['m'], r['path'], r['native']))
         feas = [r for r in results if r['path_feasible'] != 'unsat']
         discharged = [r for r in feas if r['negated_claim'] == 'unsat']
-        ev = {'property_id': 'C20', 'tier': tier, 'seed': int(os.environ.get('VERIF_SEED', '0') or 0), 'level': 'model_checking',
+        ev = {'property_id': 'C20', 'tier': tier, 'seed': int(os.environ.get('VERIF_SEED', '0') or 0), 'level': 'proof',
               'coverage': {'obligations': len(feas), 'discharged': len(discharged),
                            'checker_cmd': '%s -T:%d <query.smt2>  (QF_NRA; one query per claim and per comparison path of the real template code)' % (Z3, timeout),
                            'trusted_base': ['z3 5.1 nlsat', 'engine/symreal.h (term-building scalar)', 'g++ template instantiation of the real asl headers'],
